@@ -97,6 +97,12 @@ func (fr *Frame) resolveIdent(name string, env *Env) Val {
 			if v, ok := fr.lookupCellByName(name, env.cur); ok {
 				return v
 			}
+			// a local of heap-struct type (e.g. lastComment): its object reference
+			for a, v := range fr.vals {
+				if al, ok := a.(*ssa.Alloc); ok && al.Comment == name && v.K == KRef {
+					return v
+				}
+			}
 		}
 		if v, ok := fr.params[name]; ok {
 			return v
@@ -481,6 +487,18 @@ func (fr *Frame) evalCall(x *ECall, env *Env) Val {
 	case "tvIndex":
 		s, r := arg(0), arg(1)
 		return intVal(lSub(r.C[0], "(* 8 "+s.C[0]+")"))
+	case "memberOf":
+		// byte c occurs in string set
+		cv, set := arg(0).C[0], arg(1)
+		if set.Lit != nil {
+			var alts []string
+			for i := 0; i < len(*set.Lit); i++ {
+				alts = append(alts, sEq(cv, fmt.Sprint(int((*set.Lit)[i]))))
+			}
+			return boolVal(sOr(alts...))
+		}
+		j := c.fresh("qm")
+		return boolVal("(exists ((" + j + " Int)) (and (<= " + set.C[1] + " " + j + ") (< " + j + " (+ " + set.C[1] + " " + set.C[2] + ")) (= (select " + set.C[0] + " " + j + ") " + cv + ")))")
 	case "up":
 		b := arg(0).C[0]
 		return intVal("(ite (and (<= 97 " + b + ") (<= " + b + " 122)) (- " + b + " 32) " + b + ")")
